@@ -11,7 +11,7 @@ EXTENDS AsmMech, Json, IOUtils, TLC, SequencesExt
 FlagVectors ==
   { f \in [ mov : {"", "nasm", "strict", "smart"}, sib : {"", "nasm", "strict"}, swap : {"", "nasm", "strict"},
             nobase : {"", "nasm", "strict"}, short : {"", "n", "t", "s"}, short2 : {"", "n", "t", "s"},
-            p : BOOLEAN, out : {"", "P", "o", "Pbad"}, pre : {"none", "long", "short"}, c : {0, 8, 16}, b : {0, 8}, r : BOOLEAN, src : {"stdin", "file"},
+            p : BOOLEAN, out : {"", "P", "o", "Pbad"}, pre : {"none", "long", "short"}, c : {0, 2, 5, 8, 16, 100}, b : {0, 3, 8, 17}, r : BOOLEAN, src : {"stdin", "file"},
             spell : {"short", "long", "long="} ] :      \* -p -P -c -b -r -o -n -t -s or their long spellings (--print --printfile X / --printfile=X ...)
       /\ (f.pre # "none" => f.out \in {"P", "o"})        \* pre: the output file exists already and is longer / shorter than the new code
       /\ (f.short # "" => f.mov = "" /\ f.sib = "" /\ f.swap = "" /\ f.nobase = "")
